@@ -1,9 +1,9 @@
 (* C31 — proofs.  Property text: closing while the snapshot gate is held waits for the holder and
    proceeds promptly once it finishes; closing fails only if the holder is still running after
    the shutdown wait limit of about ten seconds. *)
-From Coq Require Import NArith List Bool Lia Arith.
+From Coq Require Import NArith List Bool Lia Arith String.
 From Coq Require Import ZifyBool ZifyNat ZifyN.
-From RQ Require Import Model.C31.
+From RQ Require Import Lib.C34_Sched Model.C34 Proofs.C34 Model.C31.
 Import ListNotations.
 Open Scope N_scope.
 
@@ -175,4 +175,35 @@ Qed.
 Example close_example :
   close_gate 0 = Acquired 0 /\ close_gate 5 = Acquired 10 /\ close_gate 50 = Acquired 50 /\
   close_gate 503 = Acquired 510 /\ close_gate 11000 = TimedOut 10010.
+Proof. vm_compute. repeat split; reflexivity. Qed.
+
+(* The gate's caller discipline (only the caller of a successful Begin calls End) is what makes
+   "held" mean anything: under it, while somebody holds the gate every other Begin - a snapshot
+   attempt made by Close's snapshot-on-close, a user snapshot - is refused and changes nothing,
+   so the holder keeps the gate until its own End. *)
+Lemma gate_refusal_keeps_holder : forall l s t o,
+  run cas_enabled cas_step cas_init l = Some s -> c_holders s <> [] ->
+  cas_step_obs s (CBegin t o) = (s, Conflict).
+Proof.
+  intros l s t o Hr Hne.
+  destruct (cas_mutex l s Hr) as [_ Hiff]. apply Hiff in Hne.
+  cbn [cas_step_obs]. rewrite Hne. reflexivity.
+Qed.
+
+Lemma gate_holder_until_own_end : forall l s h a,
+  run cas_enabled cas_step cas_init l = Some s -> c_holders s = [h] ->
+  cas_enabled s a = true -> a <> CEnd h -> c_holders (cas_step s a) = [h] /\ c_owner (cas_step s a) = c_owner s.
+Proof.
+  intros l s h a Hr Hh Hen Hne. destruct a as [t o|t].
+  - unfold cas_step. rewrite (gate_refusal_keeps_holder l s t o Hr); [|rewrite Hh; discriminate].
+    cbn. split; [exact Hh|reflexivity].
+  - cbn [cas_enabled] in Hen. rewrite Hh in Hen. apply memn_In in Hen. destruct Hen as [->|[]].
+    exfalso. apply Hne. reflexivity.
+Qed.
+
+Example gate_example :
+  gate_exec cas_init [(CBegin 0 "backup"%string, Ok, "backup"%string); (CBegin 1 "snapshot"%string, Conflict, "backup"%string);
+                      (CEnd 0, Ok, ""%string); (CBegin 1 "close"%string, Ok, "close"%string)] = true /\
+  gate_exec cas_init [(CBegin 0 "backup"%string, Ok, "backup"%string); (CBegin 1 "snapshot"%string, Conflict, ""%string)] = false /\
+  gate_exec cas_init [(CBegin 0 "backup"%string, Ok, "backup"%string); (CEnd 1, Ok, ""%string)] = false.
 Proof. vm_compute. repeat split; reflexivity. Qed.
